@@ -142,7 +142,7 @@ pub fn child(args: &[String]) -> i32 {
     // REAL values whose equality classes have several bit patterns (NaN / -NaN, 0.0 / -0.0) in hashed containers: a
     // seed-dependent split of such a class shows for few seeds only, so these statements get 40 x the seeds
     {
-        let ndef = "CREATE TABLE n(line = '^(\\\\S+) (\\\\S+)$', line[1] => k TEXT, line[2] => x REAL);\nCREATE TABLE m(line = '^(\\\\S+) (\\\\S+)$', line[1] => j TEXT, line[2] => x REAL);";
+        let ndef = "CREATE TABLE n(line = '^(\\\\S+) (\\\\S+)$', line[1] => k TEXT, line[2] => x REAL);\nCREATE TABLE m(line = '^(\\\\S+) (\\\\S+)$', line[1] => j TEXT, line[2] => x REAL);\nCREATE TABLE big(line = '^(\\\\S+) (\\\\S+)$', line[1] => k TEXT, line[2] => v INT);";
         let ninput = "a NaN\nb -NaN\nc 1.5\nd NaN\ne -0.0\nf 0.0\ng -NaN\n";
         let jtmp = sut::TempFiles::new(&[b"p -NaN\nq 0.0\nr NaN\n"]);
         let nst = vec![
@@ -151,7 +151,11 @@ pub fn child(args: &[String]) -> i32 {
             "SELECT DISTINCT x FROM n".to_string(),
             format!("SELECT k, j FROM n INNER JOIN m::'{}' ON n.x = m.x", jtmp.paths[0]),
             "SELECT array_unique(ARRAY_AGG(x)) FROM n".to_string(),
+            "SELECT array_unique(ARRAY_AGG(k)), COUNT(DISTINCT k) FROM big".to_string(),
+            "SELECT v, array_unique(ARRAY_AGG(k)) FROM big GROUP BY v".to_string(),
         ];
+        // 150 lines with 100 different keys for the statements over table big
+        let big_input: String = (0..150).map(|i| format!("key{} {}\n", (i * 37) % 100, i % 3)).collect();
         for (si, s) in nst.iter().enumerate() {
             let mut outputs: BTreeMap<String, Vec<u64>> = BTreeMap::new();
             let mut canaries: BTreeSet<String> = BTreeSet::new();
@@ -159,12 +163,14 @@ pub fn child(args: &[String]) -> i32 {
             let mut shim_ok = true;
             for seed in 0..nseeds * 40 {
                 let s2 = s.clone();
+                let big2 = big_input.clone();
                 let h = std::thread::spawn(move || {
                     let ok = set_thread_seed(proc_index * 7_000_003 + seed * 104_729 + 11);
                     let can = canary();
                     let tables = sut::make_tables(ndef).expect("defs");
                     let st = sut::parse(&s2).expect("stmt");
-                    let r = sut::run_files(&tables, &st, &[ninput.as_bytes()], FileRunOpts { format: OutputFormat::Json, ..Default::default() });
+                    let input: &str = if s2.contains(" big") { &big2 } else { ninput };
+                    let r = sut::run_files(&tables, &st, &[input.as_bytes()], FileRunOpts { format: OutputFormat::Json, ..Default::default() });
                     let lines = match r {
                         Outcome::Ok(fr) => {
                             let mut l = fr.printed.clone();
